@@ -50,6 +50,7 @@ func runC08(c *core.Ctx) {
 	c08Mapping(c, sp)
 	c08Keys(c, sp)
 	c08KeyBuf(c, sp)
+	c08Notify(c)
 	if st := c.P.Pkg("services/storage"); st != nil {
 		c15SeekAs(c, st, "C08.seek")
 	} else {
@@ -733,6 +734,8 @@ func c08Precedence(c *core.Ctx, root *packages.Package) {
 				return "anonErr", true
 			case strings.Contains(k, ".EventState(") && strings.Contains(k, ").2 == nil"):
 				return "topicErr", true
+			case a.Op == token.EQL && strings.HasSuffix(a.L, ".Level") && strings.HasSuffix(a.R, ".Level"):
+				return "same", false
 			}
 			return "", false
 		}}
@@ -741,6 +744,40 @@ func c08Precedence(c *core.Ctx, root *packages.Package) {
 		c.Undecided("C08.precedence", "AlertNode.restoreEvent", fn.Decl.Pos(), "%v", err)
 		return
 	}
+	// reconciliation of the two topics (what a crash between their two commits leaves behind)
+	c.Rule("C08.reconcile", "A1: restoreEvent: when the levels found differ, an entry found on both topics or only on the anonymous one is written to the named topic (UpdateEvent(n.topic, anon state)), an entry found only on the named topic is written to the anonymous one; nothing is written otherwise")
+	an.CheckTable(c, "C08.reconcile", "AlertNode.restoreEvent", paths, an.Table{Atoms: []string{"hasAnon", "anonErr", "anonOK", "hasTopic", "topicErr", "topicOK", "same"},
+		Outcome: func(p *an.Path) string {
+			var s []string
+			for _, e := range p.Events {
+				if e.Kind == "call" && e.Name == "UpdateEvent" && len(e.Args) == 2 {
+					dst, src := "topic", "topic"
+					if strings.HasSuffix(e.Args[0], ".anonTopic") {
+						dst = "anon"
+					}
+					if strings.Contains(e.Args[1], ".anonTopic,") {
+						src = "anon"
+					}
+					s = append(s, dst+"<-"+src)
+				}
+			}
+			return strings.Join(s, ",")
+		},
+		Expect: func(a map[string]bool) string {
+			anonFound := a["hasAnon"] && !a["anonErr"] && a["anonOK"]
+			topicFound := a["hasTopic"] && !a["topicErr"] && a["topicOK"]
+			switch {
+			case a["same"]:
+				return ""
+			case anonFound && topicFound:
+				return "topic<-anon"
+			case topicFound && a["hasAnon"]:
+				return "anon<-topic"
+			case anonFound && a["hasTopic"]:
+				return "topic<-anon"
+			}
+			return ""
+		}})
 	an.CheckTable(c, "C08.precedence", "AlertNode.restoreEvent", paths, an.Table{Atoms: []string{"hasAnon", "anonErr", "anonOK", "hasTopic", "topicErr", "topicOK"},
 		Outcome: func(p *an.Path) string {
 			if len(p.Rets) != 2 {
@@ -774,6 +811,41 @@ func c08Precedence(c *core.Ctx, root *packages.Package) {
 			}
 			return "zero"
 		}})
+}
+
+// c08Notify: the reconciliation path (UpdateEvent) delivers the level to the topic's handlers.
+func c08Notify(c *core.Ctx) {
+	c.Rule("C08.notify", "A6: the level written to a lagging topic by the restore-time reconciliation reaches that topic's handlers: Topics.UpdateEvent (the only operation the reconciliation uses) leads to Topic.handleEvent / a handler's Handle")
+	ap := c.P.Pkg("alert")
+	fn := c.Need("C08.notify", "alert", "Topics", "UpdateEvent")
+	if ap == nil || fn == nil {
+		return
+	}
+	info := ap.TypesInfo
+	seen := map[*types.Func]bool{}
+	delivers := false
+	var visit func(f *core.Func)
+	visit = func(f *core.Func) {
+		if f == nil || seen[f.Obj] || f.Decl.Body == nil {
+			return
+		}
+		seen[f.Obj] = true
+		ast.Inspect(f.Decl.Body, func(n ast.Node) bool {
+			if call, ok := n.(*ast.CallExpr); ok {
+				if g := core.Callee(info, call); g != nil {
+					if g.Name() == "handleEvent" || g.Name() == "Handle" {
+						delivers = true
+					}
+					if g.Pkg() == ap.Types {
+						visit(declOfFunc(c.P, g))
+					}
+				}
+			}
+			return true
+		})
+	}
+	visit(fn)
+	c.Check(delivers, "C08.notify", "Topics.UpdateEvent#handlers", fn.Decl.Pos(), "UpdateEvent changes and persists the topic's event state but never calls the topic's handlers: a level that reaches a topic only through the restore-time reconciliation (crash between the anonymous-topic and the named-topic commit) is never told to that topic's handlers")
 }
 
 func c08KeyBuf(c *core.Ctx, sp *packages.Package) {
